@@ -387,7 +387,14 @@ def run(ctx):
                 "`the rule is applied per key, uniformly for every value kind including whole subkey groups`: the locale returned when a chain ends "
                 "or loops is stored per key when the default locale's keys are built; inside a group the Locale at hand is the group, not the locale",
                 only=r"make_builder_keys", floor=1)
-    return [r1, r2_recording(ctx, prog), r3_walk(ctx, prog), r4_generators(ctx), r5_default_never_defaults(ctx), r6_single_fallback(ctx, prog), r7, r8]
+    # a `$t(key)` whose target is null in its locale resolves along the same chain (walk to the first locale that defines it,
+    # default last; chains of several hops, cycles): the resolution clause of C06.R0 (rules/fkeval.py)
+    from rules import c06
+    k6, _ok6, _why6 = c06.r0_substitution(ctx)
+    r9 = borrow(k6, "C03.R9", "a reference to a null key follows the inherits chain hop by hop",
+                "`walking from the locale itself through its inherits chain`: the value a reference reads for a null key is the fallback value; a walk that "
+                "asks for the parent of the starting locale at every hop leaves the chain after one hop", only=r"resolve_foreign_key_inner", floor=1)
+    return [r1, r2_recording(ctx, prog), r3_walk(ctx, prog), r4_generators(ctx), r5_default_never_defaults(ctx), r6_single_fallback(ctx, prog), r7, r8, r9]
 
 
 MANIFEST_ENTRY = {
